@@ -317,6 +317,34 @@ class SMI(Machine):
         if meth in ('le', 'lt', 'ge', 'gt') and isinstance(d0, Adt) and d0.name in ('Level', 'LevelFilter') and len(args) == 2:
             o = deref(args[1])
             return {'le': d0.variant <= o.variant, 'lt': d0.variant < o.variant, 'ge': d0.variant >= o.variant, 'gt': d0.variant > o.variant}[meth]
+        if isinstance(d0, bool) and meth in ('then', 'then_some') and ('bool' in c):
+            if not d0:
+                return NONE()
+            return SOME(self.call_closure(args[1], [])) if meth == 'then' else SOME(args[1])
+        if isinstance(d0, (SymVal, z3.BoolRef)) and meth in ('then', 'then_some') and ('bool' in c):
+            if not self.truth(d0):
+                return NONE()
+            return SOME(self.call_closure(args[1], [])) if meth == 'then' else SOME(args[1])
+        if re.match(r'(std|core)::mem::(take|replace|swap)$', c):
+            if meth == 'take':
+                old = a0.get()
+                o = deref(old)
+                new = RString('') if isinstance(o, RString) else [] if isinstance(o, list) else NONE() if isinstance(o, Adt) and o.name == 'Option' else False if isinstance(o, bool) else 0 if isinstance(o, int) else None
+                if new is None:
+                    if isinstance(o, PyMap):
+                        new = PyMap(o.kind)
+                    else:
+                        raise Unsupported('mem::take of %r' % (o,))
+                a0.set(new)
+                return old
+            if meth == 'replace':
+                old = a0.get()
+                a0.set(args[1])
+                return old
+            x, y = a0.get(), args[1].get()
+            a0.set(y)
+            args[1].set(x)
+            return ()
         if c in ('std::iter::once', 'once', 'core::iter::once'):
             return It(iter([a0]))
         if c in ('std::iter::empty', 'empty', 'core::iter::empty'):
@@ -448,6 +476,39 @@ class SMI(Machine):
             if meth == 'take':
                 a0.set(NONE())
                 return d0
+            if meth == 'zip':
+                o = deref(args[1])
+                return SOME([v, o.fields[0]]) if some and o.variant == 1 else NONE()
+            if meth == 'xor':
+                o = deref(args[1])
+                return d0 if some and o.variant == 0 else o if (not some and o.variant == 1) else NONE()
+            if meth == 'and':
+                return args[1] if some else NONE()
+            if meth in ('get_or_insert_with', 'get_or_insert'):
+                if not some:
+                    nv = self.call_closure(args[1], []) if meth == 'get_or_insert_with' else args[1]
+                    d0.variant = 1
+                    d0.fields[:] = [nv]
+                return Ref(d0.fields, 0)
+            if meth == 'insert':
+                d0.variant = 1
+                d0.fields[:] = [args[1]]
+                return Ref(d0.fields, 0)
+            if meth == 'replace':
+                old = Adt('Option', d0.variant, list(d0.fields))
+                d0.variant = 1
+                d0.fields[:] = [args[1]]
+                return old
+            if meth == 'iter' or meth == 'into_iter':
+                return It(iter([Ref(d0.fields, 0)] if some and isinstance(a0, Ref) else ([v] if some else [])))
+            if meth == 'flatten':
+                return deref(v) if some else NONE()
+            if meth == 'inspect':
+                if some:
+                    self.call_closure(args[1], [Ref(d0.fields, 0)])
+                return d0
+            if meth == 'unzip':
+                return [SOME(v[0]), SOME(v[1])] if some else [NONE(), NONE()]
             if meth == 'as_deref':
                 if not some:
                     return NONE()
@@ -470,6 +531,24 @@ class SMI(Machine):
                 return SOME(v) if ok else NONE()
             if meth == 'err':
                 return NONE() if ok else SOME(v)
+            if meth == 'or_else':
+                return d0 if ok else self.call_closure(args[1], [v])
+            if meth == 'or':
+                return d0 if ok else args[1]
+            if meth == 'unwrap_or':
+                return v if ok else args[1]
+            if meth == 'map_or':
+                return self.call_closure(args[2], [v]) if ok else args[1]
+            if meth == 'map_or_else':
+                return self.call_closure(args[2], [v]) if ok else self.call_closure(args[1], [v])
+            if meth == 'as_ref' or meth == 'as_mut':
+                return Adt('Result', d0.variant, [Ref(d0.fields, 0)])
+            if meth == 'inspect_err':
+                if not ok:
+                    self.call_closure(args[1], [Ref(d0.fields, 0)])
+                return d0
+            if meth == 'iter' or meth == 'into_iter':
+                return It(iter([v] if ok else []))
             if meth == 'is_ok_and':
                 return self.call_closure(args[1], [v]) if ok else False
             if meth == 'is_err_and':
@@ -572,8 +651,10 @@ class SMI(Machine):
         # --- Vec / HashMap / Atomic
         if c in ('Vec::new', 'Vec::with_capacity'):
             return []
-        if c == 'String::new':
+        if c in ('String::new', 'String::with_capacity'):
             return RString('')
+        if re.match(r'<String as From<.*>>::from$', c) or c in ('String::from',):
+            return RString(as_str(a0))
         if isinstance(d0, list):
             if meth == 'push':
                 d0.append(args[1])
@@ -584,6 +665,22 @@ class SMI(Machine):
                 return len(d0) == 0
             if meth == 'len':
                 return len(d0)
+            if meth == 'index' and isinstance(deref(args[1]), Adt) and deref(args[1]).name.startswith('Range'):
+                r = deref(args[1])
+                lo, hi = 0, len(d0)
+                if r.name == 'Range':
+                    lo, hi = r.fields
+                elif r.name == 'RangeTo':
+                    hi = r.fields[0]
+                elif r.name == 'RangeFrom':
+                    lo = r.fields[0]
+                if lo > hi or hi > len(d0):
+                    raise Panic('slice index out of range')
+                return d0[lo:hi]
+            if meth == 'index' and isinstance(args[1], int):
+                if args[1] >= len(d0):
+                    raise Panic('index out of bounds')
+                return Ref(d0, args[1])
             if meth == 'first':
                 return SOME(Ref(d0, 0)) if d0 else NONE()
             if meth == 'last':
@@ -605,6 +702,71 @@ class SMI(Machine):
             if meth == 'clear':
                 del d0[:]
                 return ()
+            if meth in ('sort', 'sort_unstable'):
+                keys = [self.cstr(x) if not isinstance(deref(x), int) else deref(x) for x in d0]
+                d0[:] = [x for _, x in sorted(zip(keys, d0), key=lambda kv: kv[0])]
+                return ()
+            if meth in ('sort_by_key', 'sort_unstable_by_key', 'sort_by_cached_key'):
+                ks = []
+                for x in d0:
+                    k = deref(self.call_closure(args[1], [Ref([x], 0)]))
+                    ks.append(self.cstr(k) if not isinstance(k, int) else k)
+                d0[:] = [x for _, x in sorted(zip(ks, d0), key=lambda kv: kv[0])]
+                return ()
+            if meth in ('sort_by', 'sort_unstable_by'):
+                import functools as _ft
+
+                def cmp(x, y):
+                    r = deref(self.call_closure(args[1], [Ref([x], 0), Ref([y], 0)]))
+                    return r.fields[0] if isinstance(r, Adt) and r.name == 'Ordering3' else {0: -1, 1: 0, 2: 1}[r.variant]
+                d0[:] = sorted(d0, key=_ft.cmp_to_key(cmp))
+                return ()
+            if meth == 'dedup':
+                out_ = []
+                for x in d0:
+                    if not out_ or not self.truth(struct_eq(out_[-1], x)):
+                        out_.append(x)
+                d0[:] = out_
+                return ()
+            if meth == 'retain':
+                d0[:] = [x for x in list(d0) if self.truth(self.call_closure(args[1], [Ref([x], 0)]))]
+                return ()
+            if meth == 'reverse':
+                d0.reverse()
+                return ()
+            if meth == 'truncate':
+                del d0[args[1]:]
+                return ()
+            if meth == 'remove':
+                if args[1] >= len(d0):
+                    raise Panic('Vec::remove index out of bounds')
+                return d0.pop(args[1])
+            if meth == 'swap_remove':
+                if args[1] >= len(d0):
+                    raise Panic('Vec::swap_remove index out of bounds')
+                x = d0[args[1]]
+                d0[args[1]] = d0[-1]
+                d0.pop()
+                return x
+            if meth == 'drain':
+                items = list(d0)
+                del d0[:]
+                return It(iter(items))
+            if meth == 'iter_mut':
+                return It(Ref(d0, i) for i in range(len(d0)))
+            if meth == 'concat':
+                return RString(self.rope_join([as_str(x) for x in d0]))
+            if meth == 'to_vec':
+                return [clone_val(x) for x in d0]
+            if meth == 'append':
+                o = deref(args[1])
+                d0.extend(o)
+                del o[:]
+                return ()
+            if meth == 'split_first':
+                return SOME([Ref(d0, 0), d0[1:]]) if d0 else NONE()
+            if meth == 'split_last':
+                return SOME([Ref(d0, len(d0) - 1), d0[:-1]]) if d0 else NONE()
         if c in ('HashMap::new', 'HashMap::with_capacity'):
             return PyMap('hash')
         if c in ('HashSet::new', 'HashSet::with_capacity', 'BTreeSet::new'):
@@ -681,6 +843,8 @@ class SMI(Machine):
                 old = d0.v
                 d0.v = args[1]
                 return old
+        if c.startswith('RangeInclusive') and meth == 'new':
+            return Adt('RangeInclusive', 0, [args[0], args[1]])
         if c.startswith('inflector::'):
             s0 = as_str(a0)
             return RString(self.smap(lambda s: native.inflect(meth, s), s0))
@@ -1055,6 +1219,21 @@ class SMI(Machine):
                     return [a, b]
                 a.append(x[0])
                 b.append(x[1])
+        if meth in ('min', 'max', 'sum', 'min_by_key', 'max_by_key'):
+            items = list(it.gen)
+            if meth == 'sum':
+                return sum(deref(x) for x in items)
+            if not items:
+                return NONE()
+            if meth in ('min', 'max'):
+                ks = [self.cstr(x) if not isinstance(deref(x), int) else deref(x) for x in items]
+            else:
+                ks = []
+                for x in items:
+                    k = deref(self.call_closure(args[1], [Ref([x], 0)]))
+                    ks.append(self.cstr(k) if not isinstance(k, int) else k)
+            pick = (min if meth.startswith('min') else max)(range(len(items)), key=lambda i: (ks[i], i if meth.startswith('min') else i))
+            return SOME(items[pick])
         if meth == 'fold':
             acc = args[1]
             while True:
@@ -1179,6 +1358,81 @@ class SMI(Machine):
         if meth == 'strip_suffix':
             p = self.cstr(args[1])
             return SOME(s[:len(s) - len(p)]) if p and s.endswith(p) else (SOME(s) if not p else NONE())
+        if meth in ('trim_matches', 'trim_start_matches', 'trim_end_matches'):
+            pat = deref(args[1])
+            def hit(ch):
+                if isinstance(pat, str):
+                    return ch == pat if len(pat) == 1 else False
+                if isinstance(pat, list):
+                    return ch in pat
+                return self.truth(self.call_closure(args[1], [ch]))
+            if isinstance(pat, str) and len(pat) != 1:
+                t = s
+                if meth != 'trim_end_matches':
+                    while pat and t.startswith(pat):
+                        t = t[len(pat):]
+                if meth != 'trim_start_matches':
+                    while pat and t.endswith(pat):
+                        t = t[:-len(pat)]
+                return t
+            a, b = 0, len(s)
+            if meth != 'trim_end_matches':
+                while a < b and hit(s[a]):
+                    a += 1
+            if meth != 'trim_start_matches':
+                while b > a and hit(s[b - 1]):
+                    b -= 1
+            return s[a:b]
+        if meth == 'char_indices':
+            out_, off = [], 0
+            for ch in s:
+                out_.append([off, ch])
+                off += len(ch.encode())
+            return It(iter(out_))
+        if meth == 'split_at':
+            k = args[1]
+            b = s.encode()
+            return [b[:k].decode(), b[k:].decode()]
+        if meth == 'rfind':
+            i = s.rfind(self.cstr(args[1]))
+            return NONE() if i < 0 else SOME(len(s[:i].encode()))
+        if meth == 'eq_ignore_ascii_case':
+            return s.lower() == self.cstr(args[1]).lower()
+        if meth in ('to_ascii_lowercase', 'to_ascii_uppercase'):
+            return RString(''.join((ch.lower() if meth.endswith('lowercase') else ch.upper()) if ch.isascii() else ch for ch in s))
+        if meth == 'repeat':
+            return RString(s * args[1])
+        if meth == 'splitn':
+            return It(iter(s.split(self.cstr(args[2]), args[1] - 1)))
+        if meth == 'rsplitn':
+            return It(iter(s.rsplit(self.cstr(args[2]), args[1] - 1)[::-1]))
+        if meth == 'split_terminator':
+            parts = s.split(self.cstr(args[1]))
+            if parts and parts[-1] == '':
+                parts.pop()
+            return It(iter(parts))
+        if meth == 'matches':
+            return It(iter([self.cstr(args[1])] * s.count(self.cstr(args[1]))))
+        if meth == 'is_char_boundary':
+            b = s.encode()
+            return args[1] == len(b) or (args[1] < len(b) and (b[args[1]] & 0xC0) != 0x80)
+        if meth in ('index', 'get') and isinstance(deref(args[1]), Adt) and deref(args[1]).name.startswith('Range'):
+            r = deref(args[1])
+            b = s.encode()
+            lo, hi = 0, len(b)
+            if r.name == 'Range':
+                lo, hi = r.fields
+            elif r.name == 'RangeTo':
+                hi = r.fields[0]
+            elif r.name == 'RangeFrom':
+                lo = r.fields[0]
+            elif r.name == 'RangeInclusive':
+                lo, hi = r.fields[0], r.fields[1] + 1
+            if lo > hi or hi > len(b):
+                if meth == 'get':
+                    return NONE()
+                raise Panic('str index out of range')
+            return b[lo:hi].decode() if meth == 'index' else SOME(b[lo:hi].decode())
         if meth == 'find':
             i = s.find(self.cstr(args[1]))
             return NONE() if i < 0 else SOME(len(s[:i].encode()))
@@ -1211,6 +1465,36 @@ class SMI(Machine):
         if meth == 'push':
             d0.s = self.rope_join([d0.s, args[1]])
             return ()
+        if meth == 'insert_str':
+            t = self.cstr(d0.s)
+            b = t.encode()
+            d0.s = b[:args[1]].decode() + self.cstr(args[2]) + b[args[1]:].decode()
+            return ()
+        if meth == 'clear':
+            d0.s = ''
+            return ()
+        if meth == 'truncate':
+            d0.s = self.cstr(d0.s).encode()[:args[1]].decode()
+            return ()
+        if meth == 'pop':
+            t = self.cstr(d0.s)
+            if not t:
+                return NONE()
+            d0.s = t[:-1]
+            return SOME(t[-1])
+        if meth == 'extend':
+            o = self.as_iter(args[1])
+            parts = [d0.s]
+            while True:
+                x = o.next()
+                if x is None:
+                    break
+                parts.append(as_str(x))
+            d0.s = self.rope_join(parts)
+            return ()
+        if meth == 'write_str':
+            d0.s = self.rope_join([d0.s, as_str(args[1])])
+            return OK(())
         if meth == 'is_empty':
             return self.smap(lambda s: len(s) == 0, d0.s)
         if meth == 'len':
